@@ -1,7 +1,4 @@
-use crate::{
-    dns::{header::Header, WireFormat},
-    RCODE,
-};
+use crate::dns::{header::Header, WireFormat};
 use std::borrow::Cow;
 
 use super::RR;
@@ -95,14 +92,15 @@ impl<'a> WireFormat<'a> for OPT<'a> {
 }
 
 impl<'a> OPT<'a> {
-    pub(crate) fn extract_rcode_from_ttl(ttl: u32, header: &Header) -> RCODE {
+    pub(crate) fn extract_rcode_value_from_ttl(ttl: u32, header: &Header) -> u16 {
         let mut rcode = ((ttl & masks::RCODE_MASK) >> masks::RCODE_MASK.trailing_zeros()) << 4;
-        rcode |= header.response_code as u32;
-        RCODE::from(rcode as u16)
+        rcode |= header.received_response_code as u32;
+        rcode as u16
     }
 
     pub(crate) fn encode_ttl(&self, header: &Header) -> u32 {
-        let mut ttl: u32 = ((header.response_code as u32) >> 4) << masks::RCODE_MASK.trailing_zeros();
+        let mut ttl: u32 =
+            ((header.response_code_value() as u32) >> 4) << masks::RCODE_MASK.trailing_zeros();
         ttl |= (self.version as u32) << masks::VERSION_MASK.trailing_zeros();
         ttl
     }
